@@ -419,3 +419,19 @@ for _p, _note in (("C06", "client half: theorems c06_client_*; monitor ClientSpe
 PROPS["C19"]["suites"] = ["tx", "client"]
 _c19rel = PROPS["C19"]["relevant"]
 PROPS["C19"]["relevant"] = lambda line: _c19rel(line) or line.startswith("DIFF client ")
+
+PROPS["C25"] = {
+    "level": "proof",
+    "level_text": "PARTIAL by nature: Lean theorems c25_decode_total (all byte strings), c25_dispatch_total and c25_unchecked_assertions (regenerated facts: every dispatcher has a "
+                  "default arm; the complete list of panicking type assertions in gateway/, client/, transactions/ is the reviewed one); nil dereferences, index errors and races in the "
+                  "real handlers are runtime behaviour: all suites (gateway, client, cli, codec, tx) run the real code on their generated and adversarial streams and a panic, fatal "
+                  "error or hang is reported as a failing input with the running case as replay",
+    "technique": "Lean 4 theorems + regenerated AST facts + crash/hang stream of every correspondence suite",
+    "suites": ["gateway", "client", "cli", "codec"],
+    "relevant": lambda line: ("PANIC" in line) or (" panic" in line) or ("impl=panic" in line),
+    "rule": "the case streams of the gateway, client, cli and codec suites (see C01, C17, C30, C20): every decodable packet type in every state of a session, malformed and "
+            "illegal-direction packets, acknowledgements nobody asked for, collisions of message IDs, timers firing at every point; one case = one session / one datagram",
+    "trusted_base": TB_GW + TB_CL[4:] + TB_CLI[4:],
+    "assumptions": ["memory safety and data races of the real code are observed on the runs made, not proved"],
+    "explanation": "theorems c25_*; crash/hang detection of every suite (process-crash, process-hang, panic lines)",
+}
